@@ -48,6 +48,8 @@ var workloads = []workload{
 	{reentName, "all", nil, false, true, false},
 	// requests that must be refused, mixed in between registrations (malformed.go)
 	{malformedName, "all", nil, false, true, false},
+	// callers of a tool racing UnregisterTools / RegisterTool of it, the look-up-to-use window widened (window.go)
+	{churnName, "tool", []string{"call"}, false, true, false},
 }
 
 const reentName = "reentrant"
@@ -121,6 +123,9 @@ func childMain(name string) {
 	}
 	if wl.Name == malformedName {
 		run = runMalformedWorkload
+	}
+	if wl.Name == churnName {
+		run = runChurnWorkload
 	}
 	res, err := run(*wl, seed, scale)
 	if err != nil {
@@ -730,6 +735,13 @@ func runConcurrent(c *hk.Ctx) {
 		}
 		for _, v := range res.Violations {
 			c.Violate(v)
+		}
+		if o.wl.Name == churnName {
+			for i := 0; i < res.Calls; i++ {
+				c.Count(fmt.Sprintf("conc:%s:%d", o.wl.Name, i), i < 2*res.Overlapping, nil, "conc:"+o.wl.Name)
+			}
+			extra[o.wl.Name] = map[string]any{"calls": res.Calls, "unregister_register_operations": res.Writes, "answers": res.Answers, "wall_s": res.WallS}
+			continue
 		}
 		if o.wl.Name == malformedName {
 			for _, r := range res.Runs {
